@@ -200,8 +200,13 @@ class Ledger:
             if s.kind == "assert" and "_selected_by" in text:
                 return "tables", "C01-W1: every type routed to the union walker has _selected_by"
             if s.kind == "assert" and "_list_size" in text or s.kind == "idiom:subscript-_list_size":
-                ok = self.table_obligation("T5 list arms have a fixed length", lambda: self.rule_t5())
-                return ("tables", "C20-T5: every list-valued union member has a positive _list_size") if ok else None
+                in_list_branch = any(b and norm(t) == "is_list(field.type)" for t, b in self.enclosing_tests(n))
+                if in_list_branch:
+                    ok = self.table_obligation("T5 list arms have a fixed length", lambda: self.rule_t5())
+                    return ("tables", "C20-T5: every list-valued union member has a positive _list_size") if ok else None
+                # evaluated for whatever member was selected: every member of every union that has the table needs an entry
+                ok = self.table_obligation("every member of a union with _list_size has an entry", lambda: self.rule_list_size_total())
+                return ("tables", "L: _list_size covers every member of the unions that define it") if ok else None
             if s.kind == "idiom:next-genexp":
                 ok = self.table_obligation("T4 _selected_by keys are the union's fields", lambda: self.rule_union_keys())
                 return ("tables", "C20-T4: _selected_by keys = field names, so the selected member exists") if ok else None
@@ -354,6 +359,16 @@ class Ledger:
                     if not (isinstance(n, int) and n > 0):
                         bad.append(f"{u.name}.{fname}")
         return (not bad, f"list arms without fixed length: {bad}")
+
+    def rule_list_size_total(self):
+        bad = []
+        for k, c in self.L.all.items():
+            if self.L.is_dataclass(c) and c.has("_selected_by") and c.has("_list_size"):
+                ls = self.L.dict_attr(c, "_list_size")
+                for fname, _ in self.L.fields(c):
+                    if ls.get(fname) is None:
+                        bad.append(f"{k}.{fname}")
+        return (not bad, f"_list_size is read for the selected member whatever its type, but has no entry for {bad} (KeyError)")
 
     def rule_union_keys(self):
         bad = []
@@ -543,6 +558,9 @@ def run_ledger(run, project, mode, rule):
         t = tainted(s)
         dep = f"input-dependent (reads {t})" if t else "not shown to be table-only"
         extra = ""
+        failed = [f"{k}: {why}" for k, (ok_, why) in lg._obl.items() if not ok_]
+        if failed:
+            extra = " [failed table obligation - " + "; ".join(failed)[:300] + "]"
         if s.ref.qual == "TPMS_PARAMS.encrypted":
             nparam = [k for k, c in lg.L.all.items() if c.is_subclass_of(lg.L.TPMS_PARAMS) and c is not lg.L.TPMS_PARAMS]
             bad = [k for k in nparam if not lg.L.fields(lg.L.all[k]) or not (isinstance(lg.L.fields(lg.L.all[k])[0][1], ClassV)
